@@ -50,7 +50,16 @@ impl TranslationsInfos {
         // We don't really care for warnings, they will already be displayed by the macro
         let (locales, _, paths) = parse_locales::parse_locales(true, dir_path)?;
 
-        Ok(TranslationsInfos { locales, paths })
+        let this = TranslationsInfos { locales, paths };
+
+        // same check as the macro, `get_locales_langids` relies on it
+        for locale in this.get_locales() {
+            if let Err(err) = locale.parse::<LanguageIdentifier>() {
+                return Err(parse_locales::error::Error::InvalidLocale { locale, err }.into());
+            }
+        }
+
+        Ok(this)
     }
 
     /// Parse the translations and obtain informations about them.
